@@ -128,8 +128,30 @@ def fixed_width_growth_cases(rng):
     return out
 
 
+def where_fails_late_cases(rng):
+    """DELETE / UPDATE whose WHERE can be evaluated on the first rows and fails on a later one (an ordering
+    comparison with NULL is an error): the statement fails, and no row matched before may be gone or changed"""
+    out = []
+    for kind in ("delete", "update"):
+        t = {"k": "create", "table": "n", "cols": [("id", "int", 0), ("score", "int", 0), ("s", "varchar", 20)]}
+        n = rng.randint(3, 7)
+        k = rng.randint(2, n)                                    # the row whose score is NULL
+        rows = [[i, 10 * i, "r%d" % i] for i in range(1, n + 1)]
+        evs = [("stmt", t), ("stmt", {"k": "insert", "table": "n", "cols": [], "rows": rows[:k - 1]}),
+               ("stmt", {"k": "insert", "table": "n", "cols": ["id", "s"], "rows": [[k, "null-score"]]})]
+        if rows[k:]:
+            evs.append(("stmt", {"k": "insert", "table": "n", "cols": [], "rows": rows[k:]}))
+        names = ["n", "sys_schema"]
+        where = [[(("col", "", "score"), rng.choice([">=", ">", "<", "<="]), rng.choice([0, 10, 1000]))]]
+        st = {"k": "delete", "table": "n", "where": where} if kind == "delete" else \
+             {"k": "update", "table": "n", "sets": [("s", "changed")], "where": where}
+        evs += [("tables", names), ("stmt", st), ("tables", names), ("flush",), ("crash",), ("tables", names)]
+        out.append((kind + "/where-fails-at-row-k", k, evs, len([e for e in evs if e[0] == "stmt"]) - 1))
+    return out
+
+
 def build_cases(rng, tier):
-    cases = witness_cases() + fixed_width_growth_cases(rng)
+    cases = witness_cases() + fixed_width_growth_cases(rng) + where_fails_late_cases(rng)
     nstates = 6 if tier == "quick" else 60
     for _ in range(nstates):
         g = hist.Gen(rng, 2)
